@@ -221,3 +221,47 @@ def lexlen_grammar(rng):
             decl = "\nterminals\n" + "\n".join("%s: '%s';" % (t, t.lower()) for t in used)
             return prods, gr_text(prods) + decl
     return None
+
+
+def lr1_twin_grammar(rng):
+    """Grammars built around the classic LR(1)-but-not-LALR(1) core (two states with equal
+    kernels whose merge would add a reduce/reduce conflict, so parglare keeps them apart),
+    with optional outer contexts, extra items in the twin kernels and nullable tails: the
+    shapes on which lookahead propagation between same-kernel states matters."""
+    core = [["'a'", "A", "'d'"], ["'b'", "B", "'d'"], ["'a'", "B", "'e'"], ["'b'", "A", "'e'"]]
+    prods = []
+    extra_c = rng.random() < 0.6
+    outer = rng.random() < 0.6
+    s_alts = list(core)
+    if extra_c:
+        s_alts += [["'a'", "C"], ["'b'", "C"]]
+    if rng.random() < 0.3:
+        rng.shuffle(s_alts)
+    if outer:
+        prods.append(("G", [["'p'", "S", "'x'"], ["'q'", "S", "'y'"]] +
+                      ([["S"]] if rng.random() < 0.3 else [])))
+    prods.append(("S", s_alts))
+    prods.append(("A", [["'c'"]]))
+    prods.append(("B", [["'c'"]]))
+    if extra_c:
+        tail = rng.choice([["D"], ["D", "D"], ["'z'", "D"]])
+        prods.append(("C", [["'c'"] + tail]))
+        dalts = [["'z'"], []] if rng.random() < 0.7 else [["'z'"], ["'w'"]]
+        rng.shuffle(dalts)
+        prods.append(("D", dalts))
+    return prods, gr_text(prods)
+
+
+def ctx_nullable_grammar(rng):
+    """Deterministic grammars in which one nonterminal with nullable tails is used in several
+    contexts with different followers: LALR/SLR lookahead sets of its EMPTY reductions are the
+    union over the contexts, so an EMPTY reduction can fire on a token that is invalid in the
+    actual context (the error must still be reported at that token)."""
+    ctxs = rng.sample([("'x'", "'y'"), ("'z'", "'w'"), ("'p'", "'q'"), ("'u'", "'v'")], rng.randint(2, 3))
+    prods = [("S", [[a, "A", b] for a, b in ctxs])]
+    tails = rng.choice([["Opt"], ["Opt", "Opt2"], ["'m'", "Opt"]])
+    prods.append(("A", [["'a'"] + tails]))
+    prods.append(("Opt", [["'o'"], []]))
+    if "Opt2" in tails:
+        prods.append(("Opt2", [["'n'"], []]))
+    return prods, gr_text(prods)
